@@ -1,5 +1,6 @@
 """C01 - a chain never returns a stale or foreign result."""
 from ..core import Prop
+from .c09 import ContextReuse
 from ..suites_hist import Histories
 from .c04 import DataKinds
 
@@ -12,7 +13,7 @@ class StoredValues(DataKinds):
 
 class C01(Prop):
     pid = 'C01'
-    suites = [Histories(), StoredValues()]
+    suites = [Histories(), StoredValues(), ContextReuse()]
     trusted_base = ['the reference evaluator (harness/tcv/gen_pipeline.ref_value) and the frozen scheme renderer used by the oracle']
     assumptions = ['task computations are deterministic functions of their persisted parameters and inputs',
                    'location_determines_denotation (discharged by C03 under the no-collision hypothesis on SHA-256) and '
